@@ -48,7 +48,9 @@ func ref(t *rapid.T) *recipe.Node {
 
 // genStmt draws a pool statement. decl = usable as a top-level declaration.
 func genStmt(t *rapid.T) *recipe.Node {
-	switch rapid.IntRange(0, 7).Draw(t, "stmtkind") {
+	switch rapid.IntRange(0, 8).Draw(t, "stmtkind") {
+	case 8: // a fragment that cannot be formatted: its renders fail, every time in the same way, and leave nothing behind
+		return recipe.Id("x").C("Op", ":=").Add(ref(t)).C("Op", rapid.SampledFrom([]string{")", "}", "+", "]"}).Draw(t, "stray")).Add(ref(t))
 	case 0: // var _ = []interface{}{refs...}
 		var vals []*recipe.Node
 		for i := rapid.IntRange(1, 4).Draw(t, "n"); i > 0; i-- {
@@ -216,6 +218,10 @@ func check(c Case) error {
 	realAt := map[string]string{}   // path -> real package name asserted at first sighting
 	hintName := map[string]string{} // current ImportName hints
 	anon := map[string]bool{}
+	// paths of fragments whose render with this File failed: the failed render may have registered them
+	// (registration happens while rendering, the failure is only found when formatting), no output shows them
+	failedRef := map[string]bool{}
+	failedReal := map[string]string{}
 	lastStmt := map[int]string{}
 	lastGroup := map[int]string{}
 	lastFileBody := ""
@@ -243,7 +249,10 @@ func check(c Case) error {
 				continue
 			}
 			name[p] = q
-			if h, ok := hintName[p]; ok {
+			if h, ok := failedReal[p]; ok {
+				// registered earlier, by a fragment render that failed: the hints of that moment count
+				realAt[p] = h
+			} else if h, ok := hintName[p]; ok {
 				realAt[p] = h
 			} else {
 				realAt[p] = stdpkg.Name(p)
@@ -300,7 +309,7 @@ func check(c Case) error {
 			f.ImportAlias(a.Path, a.Name)
 			delete(hintName, a.Path)
 		case "anon":
-			if _, sighted := name[a.Path]; sighted || a.Path == local {
+			if _, sighted := name[a.Path]; sighted || failedRef[a.Path] || a.Path == local {
 				continue // Anon on an already referenced path is outside the property
 			}
 			f.Anon(a.Path)
@@ -322,6 +331,24 @@ func check(c Case) error {
 				if err := sight(step, what, out[3:]); err != nil {
 					return err
 				}
+			} else {
+				recipe.Walk(c.Pool[i], func(x *recipe.Node) {
+					if x != nil {
+						for _, cl := range x.Calls {
+							if cl.Fn == "Qual" {
+								p := string(cl.Str[0])
+								if _, seen := name[p]; !seen && !failedRef[p] {
+									if h, ok := hintName[p]; ok {
+										failedReal[p] = h
+									} else {
+										failedReal[p] = stdpkg.Name(p)
+									}
+								}
+								failedRef[p] = true
+							}
+						}
+					}
+				})
 			}
 		case "render_group":
 			if len(groups) == 0 {
@@ -415,6 +442,9 @@ func check(c Case) error {
 					continue
 				}
 				if anon[p] && imp.Name == "_" {
+					continue
+				}
+				if failedRef[p] {
 					continue
 				}
 				return fmt.Errorf("step %d: import %q (%s) was never referenced in any output and is not anonymous\n%s", step, p, imp.Name, src)
